@@ -165,10 +165,16 @@ func firstDiff(a, b string) string {
 
 func outcomeKey(res string) string {
 	i := strings.IndexByte(res, ' ')
-	if i < 0 {
-		return res
+	k := res
+	if i >= 0 {
+		k = res[:i]
 	}
-	return res[:i]
+	for _, p := range []string{"ok", "err", "panic", "hang", "crash", "same", "differ", "bad", "d1=", "missing", "model-"} {
+		if strings.HasPrefix(k, p) && len(k) <= 32 {
+			return k
+		}
+	}
+	return "(value)"
 }
 
 // CaseSet is a named group of cases; the name goes into the distribution statistics.
